@@ -557,7 +557,7 @@ func handle(f []string) string {
 		return handleChunks(f)
 	case "rde":
 		return handleRde(f)
-	case "msr", "str", "trc":
+	case "msr", "str", "trc", "trh":
 		return handleReal(mode, f)
 	case "e2e":
 		return handleE2E(f)
@@ -565,6 +565,8 @@ func handle(f []string) string {
 		return handleSnd(f)
 	case "lwr":
 		return handleLwr(f)
+	case "dqs":
+		return handleDqs(f)
 	}
 	return "bad-op"
 }
